@@ -120,6 +120,8 @@ pub mod sql;
 pub mod utils;
 #[cfg(not(feature = "cli"))]
 pub(crate) mod utils;
+#[cfg(max_sixty_prql_verif)]
+pub mod verif_hooks;
 
 pub type Result<T, E = Error> = core::result::Result<T, E>;
 
@@ -142,6 +144,8 @@ pub fn compiler_version() -> Version {
     };
 
     static COMPILER_VERSION: OnceLock<Version> = OnceLock::new();
+    #[cfg(max_sixty_prql_verif)]
+    let _v = crate::verif_hooks::once("COMPILER_VERSION", COMPILER_VERSION.get().is_some());
     COMPILER_VERSION
         .get_or_init(|| {
             if let Ok(prql_version_override) = std::env::var("PRQL_VERSION_OVERRIDE") {
